@@ -16,8 +16,9 @@ def OrdOK (ord : List Bytes → List Bytes) : Prop := ∀ l k, k ∈ ord l ↔ k
 
 /-- the input is out of reach of every deviation that `D` switches on -/
 structure Clear (D : Dev) (fl : Flavour) (a b : JV) (ign : List Path) : Prop where
-  /-- C19-multi-index-ignore needs an ignore path with an index before its last fragment -/
-  idx : D.lastIndex = true → NoInnerIdx ign
+  /-- C19-multi-index-ignore needs two ignore paths of more than one fragment, one of them with an
+  index before its last fragment (or a negative such index) -/
+  idx : D.lastIndex = true → IdxSafe ign
   /-- C19-ignored-length-index needs an ignore path that ends in an index -/
   tail : D.tailSkip = true → NoFinalIdx ign
   /-- C19-int-float-2p53 needs an integer of magnitude ≥ 2^53 on the right -/
@@ -272,9 +273,16 @@ example : NoInnerIdx [[.wild, .key kA], [.key kB]] ∧ NoFinalIdx [[.wild, .key 
 example : NoInnerIdx [[.key kA, .idx 2]] := by
   intro g hg; simp only [List.mem_cons, List.not_mem_nil, or_false] at hg; subst hg; rfl
 
+/-- so is one path through an array index next to any number of one-fragment paths
+(`Path{"a", 1, "b"}, Path{"b"}, Path{0}`: the use the repository's tests make of indexes) -/
+example : IdxSafe [[.key kA, .idx 1, .key kB], [.key kB], [.idx 0]] := by
+  refine Or.inr ⟨by decide, fun g hg => ?_⟩
+  simp only [List.mem_cons, List.not_mem_nil, or_false] at hg
+  rcases hg with rfl | rfl | rfl <;> rfl
+
 /-- the whole of `Clear` for the code as it is, on a case with a real difference and an ignore path -/
 example : Clear Dev.current .simple w1a w1b [[.wild, .key kB]] :=
-  ⟨fun _ g hg => by simp only [List.mem_cons, List.not_mem_nil, or_false] at hg; subst hg; rfl,
+  ⟨fun _ => Or.inl (fun g hg => by simp only [List.mem_cons, List.not_mem_nil, or_false] at hg; subst hg; rfl),
    fun _ g hg => by simp only [List.mem_cons, List.not_mem_nil, or_false] at hg; subst hg; rfl,
    fun _ => by
      refine AllInts.arr _ (fun x hx => ?_)
